@@ -18,7 +18,11 @@ CONFIG = {
             "group id, oversized group, unknown type, fee sink spending) at a random position of a group of 1..17; after every TransactionGroup "
             "call the evaluator is snapshotted from inside the package (account table through eval.state.lookup, asset params / holdings / creators through GetAssetParams / "
             "GetAssetHolding / GetCreator, application params / local states / creators / storage counts / boxes, mods.Accts order, Txids with Intra, Txleases, txnCount, feesCollected, len(Payset)).  spec_ok = a rejected group leaves the snapshot identical; an accepted one "
-            "adds exactly its transactions (payset, txids in order, counters, fees, leases).  Non-trivial = a rejected group for which the model "
+            "adds exactly its transactions (payset, txids in order, counters, fees, leases).  Panics are injected WITHOUT a tracer into about 8% of the "
+            "groups: the scripted ledger's CheckDup panics while transaction i of the loop is evaluated, or the parent cow's (still empty) Txids / sdeltas map is "
+            "set to nil in-package so that commitToParent panics after the Payset append and the earlier merge steps; eval.corruptedState is part of every "
+            "snapshot, the groups after a corruption and GenerateBlock are still called.  spec_ok additionally = (reported failed and not marked corrupted => "
+            "snapshot identical) and (corrupted => every later TransactionGroup and GenerateBlock refuses with ErrEvaluatorCorruptedState, nothing changes).  Non-trivial = a rejected group for which the model "
             "says the child cow had been written to before the failure.",
     "exhaustive": {"quick": False, "thorough": False},
     "explanation": "group_atomic holds for every group, every failure kind and position of the modelled evaluator; the correspondence run checks the "
@@ -28,7 +32,8 @@ CONFIG = {
         "scripts of box / global / local / inner-transaction operations ending in approve, reject, err or budget exhaustion; inner failures such as "
         "overspending inner payments); NOT modelled: inner application calls, UpdateApplication",
         "signature checking happens before the evaluator (verify package, C28); the evaluator's authorizer check is modelled",
-        "not modelled: blockTxBytes / ErrNoSpace, tracer hooks, panics after the commit point (corruptedState)",
+        "recovered panics are modelled as panic points (any transaction of the loop; after the Payset append and any number of commitToParent steps) with "
+        "eval.corruptedState; not modelled: blockTxBytes / ErrNoSpace, tracer hooks (incl. the deferred AfterTxnGroup hook), TestTransactionGroup",
     ],
     "trusted_base": [
         "modelled: ledger/eval/cow.go (child, lookup, putAccount, checkDup, addTx, commitToParent, recycle) and eval.go:TransactionGroup / transaction / "
